@@ -174,11 +174,21 @@ pub mod rt {
     pub fn arg_char(j: usize) -> char {
         CHARS[j % 8]
     }
+    // every fourth tuple carries a LONG string (Debug rendering > 64 bytes): key builders that shorten, hash or
+    // truncate long renderings must still give one stable, distinct key per tuple
     pub fn arg_string(j: usize) -> String {
-        format!("{}{}", STRS[j % 8], j / 8)
+        if j % 4 == 2 {
+            format!("{}{}{}", STRS[j % 8], j / 8, "long-argument-".repeat(6))
+        } else {
+            format!("{}{}", STRS[j % 8], j / 8)
+        }
     }
     pub fn arg_str(j: usize) -> String {
-        format!("{}{}", STRS[(j + 3) % 8], j / 8)
+        if j % 4 == 1 {
+            format!("{}{}{}", STRS[(j + 3) % 8], j / 8, "0123456789".repeat(8))
+        } else {
+            format!("{}{}", STRS[(j + 3) % 8], j / 8)
+        }
     }
     pub fn arg_opt_string(j: usize) -> Option<String> {
         if j % 3 == 0 {
